@@ -10,7 +10,7 @@
    [rvl k V] is the revision held for key k.  Views are compared by revision: the code swallows an event whose
    revision equals the cached one, so contents agree exactly when a revision identifies the content of a key. *)
 From Coq Require Import List NArith Arith Bool.
-From Verif.C26 Require Import Model Spec Proofs Steps Syncer Shape Main.
+From Verif.C26 Require Import Model Spec Proofs Steps Syncer Shape Main Content.
 Import ListNotations.
 
 (* Convergence: after ANY sequence of list results, list errors, watch-creation outcomes, watch events, watch errors,
@@ -103,6 +103,44 @@ Theorem c26_insync_all_listed_since_lost : forall ord, ord_ok ord -> forall gs, 
   forall i g ins, nth_error gs i = Some g -> nth_error inss i = Some ins -> slisted (spec_run g sstate0 ins) = true.
 Proof. exact syncer_insync_all_listed. Qed.
 Print Assumptions c26_insync_all_listed_since_lost.
+
+(* Convergence of CONTENTS (key -> revision AND value) on the callback stream, under the stated hypothesis that a
+   revision determines a key's content: [inputs_ok content g ins] says every KV that the inputs of this resource type
+   convert to carries, for key k at revision r, the value [content k r]. *)
+Theorem c26_converges_content : forall content ord gs inss es cs ws pend o,
+  ord_ok ord -> interleaving ord gs inss es -> proc (syncer0 gs) es = ((cs, ws, pend), o) ->
+  forall i g ins, nth_error gs i = Some g -> nth_error inss i = Some ins -> inputs_ok content g ins ->
+  forall k, lookup k (cfold [] (oups i (delivered o pend))) = lookup k (sv (spec_run g sstate0 ins)).
+Proof. exact syncer_converges_content. Qed.
+Print Assumptions c26_converges_content.
+
+(* The hypothesis is necessary: without it the content-comparing oracle of Spec.v rejects a run of the model itself
+   (a modification that re-uses the cached revision is swallowed, as in the code). *)
+Theorem c26_content_hypothesis_needed :
+  exists gs steps s' os, syncer_run id_ord gs (fst (syncer_init gs)) steps = Some (s', os) /\
+                         ok_obs gs [OStatus Wait] (refill steps os) = false.
+Proof. exact oracle_needs_content. Qed.
+Print Assumptions c26_content_hypothesis_needed.
+
+(* PARTIAL model-meets-spec.  For every scripted run of the syncer model (hence after every prefix of it) the
+   semantic clauses of the oracle [ok_obs] hold of the model's own callbacks: no update while WaitForDatastore and the
+   scan ends in the model's status; InSync only if every resource type has completed a list since its connection was
+   lost; per resource type the delivered updates yield the specification's view (contents under [inputs_ok],
+   revisions always).  NOT proved: that the boolean [ok_obs (refill steps os)] itself returns true, which additionally
+   needs the "tidy" clauses (UNew only for absent keys / UMod, UDel only for present ones, which needs a NoDup
+   invariant on resources/oldResources and [ord] a permutation; status callbacks are real transitions; SyncFailed
+   and ParseFailed provenance) and the reflection of veqb / vanished_ok.  [oracle_accepts_example] in Content.v is a
+   computed instance. *)
+Theorem c26_model_meets_spec_partial : forall content ord gs steps s' os,
+  ord_ok ord -> gs <> [] -> syncer_run ord gs (fst (syncer_init gs)) steps = Some (s', os) ->
+  oscan Wait (concat os) = Some (wstatus s') /\
+  (wstatus s' = InSync -> forall i g, nth_error gs i = Some g -> slisted (spec_run g sstate0 (ins_of i steps)) = true) /\
+  (forall i g, nth_error gs i = Some g -> inputs_ok content g (ins_of i steps) ->
+     forall k, lookup k (cfold [] (oups i (concat os))) = lookup k (sv (spec_run g sstate0 (ins_of i steps)))) /\
+  (forall i g, nth_error gs i = Some g ->
+     forall k, rvl k (cfold [] (oups i (concat os))) = rvl k (sv (spec_run g sstate0 (ins_of i steps)))).
+Proof. exact model_meets_spec_semantic. Qed.
+Print Assumptions c26_model_meets_spec_partial.
 
 (* The scripted runs [syncer_run] that the correspondence run compares with the real watcherSyncer are such
    interleavings (one cache step at a time, a flush after each), so all of the above applies to them. *)
